@@ -134,3 +134,13 @@ package defers
 //@   loop 3 invariant idle: !iterationChanged ==> forall j int :: 0 <= j && j < iter(3) ==> !dataflowBlockChanged[blocks[j].Index]
 //@   loop 2 exit fixpoint_reached: forall j int :: 0 <= j && j < len(blocks) ==> !dataflowBlockChanged[blocks[j].Index]
 //@   loop 3 body pending_work_kept: passed(5) && 0 <= bk && bk < len(dataflowBlockChanged) && atexit(5, dataflowBlockChanged[bk]) ==> dataflowBlockChanged[bk]
+
+// ---------------------------------------------------------------------------
+// C07: ssa.Function.Pkg is nil by design for synthetic functions (bound-method
+// wrappers, thunks, instances of generic functions): a package read from it is never
+// used without a nil check, whatever else the function does.
+//@ func AnalyzeProgram
+//@   property C07
+//@   option havoc:*
+//@   requires program != nil
+//@   nilsafe ssa.Function.Pkg
